@@ -6,6 +6,8 @@ C10 driver: the EngineCommon protocol (`init`, `algo`, `ev ...`) plus
   `rep_gap`   deliver a record two ahead of the last applied one (must be rejected)
   `runall sync|async`  the whole history through the run loop and a fresh replica
 Every processed event yields one audit record which is fed to the replica.
+`rec_ev` / `run_ev`: digest of the event a record carries (model: the tick's event; spec: the INPUT
+event of the op - "carrying that event"); `rec_out`: kinds of the outputs in the record (model only).
 -/
 namespace BarterModel.Driver.C10
 open BarterModel.Driver BarterModel.Driver.EngineCommon BarterModel.Engine BarterModel.Orders
@@ -21,9 +23,11 @@ structure St where
   history : List (Event × Ask)
   /-- the replication hypotheses (EventOk, FreshCids) held so far -/
   hypOk : Bool
+  /-- digest of every INPUT event of the history, taken when it was handed to the engine -/
+  digests : List String := []
 
 def emptyEng : Eng := ⟨false, [], [], [], 0⟩
-def St.empty : St := ⟨emptyEng, ⟨emptyEng, 0⟩, ⟨emptyEng, 0⟩, [], [], none, [], true⟩
+def St.empty : St := ⟨emptyEng, ⟨emptyEng, 0⟩, ⟨emptyEng, 0⟩, [], [], none, [], true, []⟩
 
 def obsAny (pfx : String) (e : Eng) : List String :=
   ((e.instruments.zipIdx.map fun (s, i) =>
@@ -63,6 +67,36 @@ def lastKind (ticks : List Tick) : String :=
   | some (.process _ ev a) => if a.fatal then "fatal" else match ev with | .shutdown => "shutdown" | _ => "other"
   | none => "none"
 
+/-- digest of the event a record carries; `pre` is the engine state before the record's event -/
+def tickDigest (pre : Eng) : Tick → String
+  | .process _ ev _ => eventDigest pre ev
+  | .feedEnded _ => "feed-ended"
+
+def tickOutputs : Tick → List String
+  | .process _ ev a => outputKinds ev a
+  | .feedEnded _ => []
+
+/-- digests of the records of a run: the history is re-run step by step to have the engine state
+before each record's event (the event is taken from the RECORD) -/
+def tickDigests (s : EngA) (hist : List (Event × Ask)) : List Tick → List String
+  | [] => []
+  | t :: ts =>
+    tickDigest s.eng t ::
+      (match t, hist with
+        | .process _ ev _, (_, ask) :: rest => tickDigests (processWithAudit s ev ask).1 rest ts
+        | _, _ => tickDigests s (hist.drop 1) ts)
+
+/-- `StateReplicaManager::run` as `Replica.run`, returning the state reached (also when it stops with
+an error: the real replica keeps the state it had) -/
+def replicaRunState (r : Replica) : List Tick → Replica
+  | [] => r
+  | t :: ts =>
+    match r.step t with
+    | .ended => r
+    | .skipped => replicaRunState r ts
+    | .error => r
+    | .applied r' stop => if stop then r' else replicaRunState r' ts
+
 /-- one `ev`: engine processes, replica is fed the record -/
 def stepEv (s : St) (ev : Event) : St × List String :=
   let ask : Ask := ⟨s.algoC, s.algoO, refuse⟩
@@ -73,8 +107,12 @@ def stepEv (s : St) (ev : Event) : St × List String :=
   let res := s.rep.step tick
   let rep' := match res with | .applied r _ => r | _ => s.rep
   let s' : St := { s with eng := ⟨eng', ea.seq⟩, rep := rep', algoC := [], algoO := [],
-                          lastTick := some tick, history := s.history ++ [(ev, ask)], hypOk := hyp }
-  (s', [ s!"seq {tick.seq}", "terminal " ++ fmtBool tick.terminal, "rep_step " ++ stepName res,
+                          lastTick := some tick, history := s.history ++ [(ev, ask)], hypOk := hyp,
+                          digests := s.digests ++ [eventDigest s.eng.eng ev] }
+  (s', [ s!"seq {tick.seq}", "terminal " ++ fmtBool tick.terminal,
+         -- what the RECORD carries: its event (digest against the state before it) and its outputs
+         "rec_ev " ++ tickDigest s.eng.eng tick, "rec_out " ++ joinOr (tickOutputs tick),
+         "rep_step " ++ stepName res,
          s!"rep_seq {rep'.seq}" ] ++ obsAny "" eng' ++ obsAny "rep_" rep'.state ++
        [ "rep_rest_eq 1",
          -- the property evaluated on the model's two states
@@ -83,13 +121,25 @@ def stepEv (s : St) (ev : Event) : St × List String :=
 def runAll (s : St) : List String :=
   let (ea, ticks) := runWithAudit ⟨s.init, 1⟩ s.history
   let repRes := (Replica.run ⟨s.init, 0⟩ ticks)
+  -- the state the replica reached (on `err`: where it stopped, as the real one)
+  let rep := match repRes with | .ok r => r | .error _ => replicaRunState ⟨s.init, 0⟩ ticks
   [ "run_seqs " ++ joinOr (ticks.map fun t => toString t.seq),
     "run_terminal " ++ joinOr (ticks.map fun t => fmtBool t.terminal),
     "run_last " ++ lastKind ticks ] ++
-  (match repRes with
-    | .ok r => [ "run_rep ok" ] ++ obsAny "run_" ea.eng ++ obsAny "run_rep_" r.state
-    | .error _ => [ "run_rep err" ] ++ obsAny "run_" ea.eng) ++
-  [ "run_rep_rest_eq 1" ]
+  (tickDigests ⟨s.init, 1⟩ s.history ticks).map ("run_ev " ++ ·) ++
+  [ (match repRes with | .ok _ => "run_rep ok" | .error _ => "run_rep err") ] ++
+  obsAny "run_" ea.eng ++ obsAny "run_rep_" rep.state ++
+  [ "run_rep_rest_eq 1",
+    "run_rep_sync " ++ fmtBool (strippedOrders "" ea.eng == strippedOrders "" rep.state) ]
+
+/-- what the property says the records of the run carry: the input events of the history, in order, as
+many as there are records (the model gives the count), then the feed-ended record if the run ended by
+exhaustion of the feed -/
+def runEvSpec (s : St) : List String :=
+  let (_, ticks) := runWithAudit ⟨s.init, 1⟩ s.history
+  let n := (ticks.filter fun t => match t with | .process .. => true | .feedEnded _ => false).length
+  (s.digests.take n).map ("run_ev " ++ ·) ++
+  (match ticks.getLast? with | some (.feedEnded _) => ["run_ev feed-ended"] | _ => [])
 
 def model : Drv St where
   init := St.empty
@@ -134,10 +184,12 @@ def model : Drv St where
     | ["runall", _] => (s, runAll s)
     | _ => (s, ["bad-op"])
 
-/-- Spec view: sequence numbers, terminal flags, what the replica does with each record, and the
-replica's state as the property demands it — trading / position / price equal to the engine's, orders
-equal to the engine's once in-flight markers are set aside (silent on orders once a replication
-hypothesis failed), everything else equal (`rep_rest_eq 1`). -/
+/-- Spec view: sequence numbers, terminal flags, the event each record carries (`rec_ev` / `run_ev`: the
+digest of the INPUT event of the op / of the history, not of the model's tick), what the replica does
+with each record, and the replica's state as the property demands it — trading / position / price equal
+to the engine's, orders equal to the engine's once in-flight markers are set aside (silent on orders
+once a replication hypothesis failed; `rep_sync 1` / `run_rep_sync 1` while it holds), everything else
+equal (`rep_rest_eq 1`). -/
 def spec : Drv St where
   init := St.empty
   step s toks :=
@@ -147,11 +199,19 @@ def spec : Drv St where
        "run_rep ", "run_rep_rest_eq", "panic", "bad-op", "noop"].any (fun k => l.startsWith k)
     let base := lines.filter keep
     let isEv := toks.head? == some "ev" && base.any (fun l => l.startsWith "seq")
+    -- "carrying that event": the record of this op carries the event the op hands to the engine
+    let inputDigest := match toks with
+      | "ev" :: rest => (resolveEvent s.eng.eng rest).map fun ev =>
+          "rec_ev " ++ eventDigest s.eng.eng (fixExchange s.eng.eng ev)
+      | _ => none
     let extra :=
       if isEv then
+        inputDigest.toList ++
         -- replica = engine on trading / position / price; orders stripped
         ((obsAny "rep_" s'.eng.eng).filter fun l => !(l.startsWith "rep_ord")) ++
         (if s'.hypOk then strippedOrders "rep_" s'.eng.eng ++ ["rep_sync 1"] else [])
+      else if toks.head? == some "runall" && base.any (fun l => l.startsWith "run_seqs") then
+        runEvSpec s ++ (if s.hypOk then ["run_rep_sync 1"] else [])
       else []
     (s', base ++ extra)
 
